@@ -4,6 +4,11 @@ TARGETS = [
     ("permdrv", ["permdrv.cpp"], {}),
     ("treedrv", ["treedrv.cpp"], {"sessions": 16, "epoch_time": 5}),
     ("concdrv", ["concdrv.cpp"], {"sessions": 16}),
+    ("epochdrv1", ["epochdrv.cpp"], {"sessions": 1}),
+    ("epochdrv2", ["epochdrv.cpp"], {"sessions": 2}),
+    ("epochdrv3", ["epochdrv.cpp"], {"sessions": 3}),
+    ("epochdrv4", ["epochdrv.cpp"], {"sessions": 4}),
+    ("lifedrv", ["lifedrv.cpp"], {"sessions": 4, "epoch_time": 2}),
     ("orddrv", ["orddrv.cpp"], {"sessions": 16}),
     ("mapdrv", ["mapdrv.cpp"], {"sessions": 16, "epoch_time": 5}),
 ]
